@@ -219,6 +219,19 @@ pub fn guard_workload(out: &mut Sink) {
             run_zst::<N>(Some(k), 1, out);
         }
     }
+    // arrays of more than 4096 bytes in memory (40-byte elements): a decoder that stages large arrays
+    // differently owes them the same bookkeeping
+    fn large<const N: usize>(out: &mut Sink) {
+        run::<N>(None, 0, out);
+        for k in [0usize, 1, 2, N / 2, N - 2, N - 1] {
+            for mode in [0u8, 1, 2] {
+                run::<N>(Some(k), mode, out);
+            }
+        }
+    }
+    large::<102>(out);
+    large::<103>(out);
+    large::<513>(out);
     run_drop_panic::<4>(2, 0, out);
     run_drop_panic::<4>(3, 0, out);
     run_drop_panic::<4>(3, 1, out);
